@@ -6,6 +6,10 @@ TECH = "contract-based deductive verification: clang-extracted C under CBMC code
 NOTE_COMMON = ("Trusted: clang 14 front end; phqv C++->C/term lowering (must-fire rules, DESIGN.md 3.1); CBMC 6.11 + cvc5/MiniSat; z3 4.8.12/5.1.0. "
                "REAL obligations treat machine arithmetic as mathematical; IEEE obligations are bit-precise for float/double; x87 long double has no bit-precise obligation. libm sqrt assumed correctly rounded. ")
 CLAIMED = {
+ 'C01': dict(
+   text="Proof for all x and all 514 units: each per-unit ToStandard/FromStandard body (instantiated AST) equals, as a real function, the affine map A*pi^k*x+B obtained by expanding the unit's own abbreviation with an independent SI/NIST atom table (z3, exact rationals, pi symbolic); for each numeric type the same body with every constant sub-expression evaluated by exact IEEE emulation (incl. double rounding of long double literals) and (1+d) on the operations involving x stays within 8u of the exact map for all x (z3 nlsat); the run-time dispatch ConvertInPlace(x,from,to) selects for every enumerator in the declared range the routine of that enumerator and every lookup hits (CBMC contract, SAT); all ordered pairs follow by the composition lemma.",
+   ref="DESIGN.md 5 C01",
+   note="Underflow/overflow excluded (standard model); libm pow assumed correctly rounded (4 mass-density constants); unit oracle spec/unit_atoms.py hand-written from SI Brochure/NIST SP 811 (cal and BTU admit their conventional values). float/long double NOISY obligations run in the thorough tier."),
  'C09': dict(
    text="Proof for all inputs: every tensor-algebra member and free operator of PlanarVector/Vector/SymmetricDyad/Dyad (instantiated bodies from clang's AST) equals the textbook index formula on the 3x3 embedding as a function over the reals (one z3 obligation per function/component group); Inverse*A==I and A*Inverse==I when det!=0; Inverse present iff computed determinant != 0 and each slot == adjugate/det bit-precisely (CBMC contract, callee contracts). Rounding ('few ulps') is not machine-checked: identities are over exact reals.",
    ref="DESIGN.md 5 C09"),
